@@ -439,7 +439,7 @@ func (ex *Exec) frameObligations(fr *Frame, fc *FuncContract, env0 *Env, reach s
 					excl = append(excl, mkAnd(mkEq(o, ml.Idx[0]), mkEq(p, ml.Idx[1])))
 				}
 			}
-			pre := mkAnd(mkApp("<=", "0", o), mkApp("<=", o, alloc0), mkNot(mkOr(excl...)))
+			pre := mkAnd(mkApp("<=", objLowerBound(k, alloc0), o), mkApp("<=", o, alloc0), mkNot(mkOr(excl...)))
 			if two && elemLevel {
 				goal = mkImp(pre, mkEq(mkSelect(mkSelect(cur, o), p), mkSelect(mkSelect(entry, o), p)))
 			} else {
